@@ -83,12 +83,13 @@ def gen_layer(key):
     fields = L["fields"]
     nf = len(fields)
     hdrlen = L.get("hdrlen_expr", "%d" % H)
+    offs = sorted(set([0, MO]))
     out = []
     w = out.append
     w("#[cfg(kani)]\nmod verif_%s {\n    use super::*;\n%s" % (key, PRELUDE))
     w("    const N: usize = %d;\n" % N)
-    w("    fn any_raw() -> ([u8; N], Rc<Vec<u8>>, usize) {\n        let a: [u8; N] = kani::any();\n"
-      "        let off: usize = kani::any();\n        kani::assume(off <= %d);\n        (a, Rc::new(a.to_vec()), off)\n    }\n" % MO)
+    w("    fn any_raw() -> ([u8; N], Rc<Vec<u8>>) {\n        let a: [u8; N] = kani::any();\n"
+      "        (a, Rc::new(a.to_vec()))\n    }\n")
     w("    fn snapshot(t: &%s) -> [u64; %d] {\n        [%s]\n    }\n" % (ty, nf, ", ".join("val_of(t.%s())" % f[1] for f in fields)))
     w("    fn field_spec(raw: &[u8], off: usize) -> [u64; %d] {\n        [%s]\n    }\n" % (nf, ", ".join("(%s) as u64" % f[4] for f in fields)))
     arms = []
@@ -102,9 +103,8 @@ def gen_layer(key):
     raws = "".join("                assert!(%s); // %s\n" % (e, n) for n, e in L.get("raw_fields", []))
     w("""
     // C16: every readable field of {ty}::from_bytes equals the RFC layout of the raw bytes
-    #[kani::proof]
-    fn c16_{key}_from_bytes_fields() {{
-        let (a, rawrc, off) = any_raw();
+    fn check_fields(off: usize) {{
+        let (a, rawrc) = any_raw();
         let raw: &[u8] = &a;
         let hl: usize = {hdrlen};
         let r = {ty}::from_bytes(rawrc.clone(), off);
@@ -118,11 +118,12 @@ def gen_layer(key):
                 kani::assume(k < {nf});
                 assert!(got[k] == want[k]);
                 assert!(t.offset == off + hl);
-{raws}                kani::cover!(off == {MO});
+{raws}                kani::cover!(true);
             }}
         }}
         std::mem::forget(r);
     }}
+{fields_proofs}
 
     // C16/C08: a truncated header is an error object, never a panic (every shortfall)
     #[kani::proof]
@@ -137,9 +138,8 @@ def gen_layer(key):
     }}
 
     // C15: serialising a freshly parsed (read-only) layer returns the captured bytes from its start
-    #[kani::proof]
-    fn c15_{key}_ro_serialise() {{
-        let (a, rawrc, off) = any_raw();
+    fn check_ro_serialise(off: usize) {{
+        let (a, rawrc) = any_raw();
         let r = {ty}::from_bytes(rawrc.clone(), off);
         if let Ok(t) = &r {{
             let out: Vec<u8> = t.into();
@@ -147,12 +147,15 @@ def gen_layer(key):
             let i: usize = kani::any();
             kani::assume(i < out.len());
             assert!(out[i] == a[off + i]);
-            kani::cover!(out.len() == N);
+            kani::cover!(true);
             std::mem::forget(out);
         }}
         std::mem::forget(r);
     }}
-""".format(ty=ty, key=key, hdrlen=hdrlen, nf=nf, raws=raws, MO=MO, H1=H + 1))
+{ser_proofs}
+""".format(ty=ty, key=key, hdrlen=hdrlen, nf=nf, raws=raws, MO=MO, H1=H + 1,
+           fields_proofs="".join("    #[kani::proof] fn c16_%s_from_bytes_fields_off%d() { check_fields(%d); }\n" % (key, o, o) for o in offs),
+           ser_proofs="".join("    #[kani::proof] fn c15_%s_ro_serialise_off%d() { check_ro_serialise(%d); }\n" % (key, o, o) for o in offs)))
 
     # C17 setters
     w("""
@@ -227,11 +230,11 @@ def gen_layer(key):
         names.append(("c17_%s_%s_frame" % (key, f[2]), "%s::%s: serialised bytes differ from the captured bytes only inside bit range %s" % (ty, f[2], f[5])))
     w("}\n")
     hs = [
-        dict(name="c16_%s_from_bytes_fields" % key, props=["C16"], kind="complete",
-             clause="%s::from_bytes: every getter equals the RFC field; Err iff the header does not fit; payload offset = off + header length (all header bytes symbolic)" % ty),
+        dict(name="c16_%s_from_bytes_fields_off%d" % (key, o), props=["C16"], kind="complete",
+             clause="%s::from_bytes(raw, %d): every getter equals the RFC field; Err iff the header does not fit; payload offset = off + header length (all header bytes symbolic)" % (ty, o)) for o in offs] + [
         dict(name="c16_%s_truncated_is_err" % key, props=["C16", "C08"], kind="complete",
              clause="%s::from_bytes on a buffer one byte longer than the header with off in 2..=64: Err, no panic" % ty),
-        dict(name="c15_%s_ro_serialise" % key, props=["C15"], kind="bounded", bound="payload <= %d bytes, off <= %d" % (X + MO, MO),
-             clause="Vec::from(&%s::from_bytes(raw, off)) == raw[off..]" % ty),
+    ] + [dict(name="c15_%s_ro_serialise_off%d" % (key, o), props=["C15"], kind="bounded", bound="payload <= %d bytes, off = %d" % (X + MO - o, o),
+             clause="Vec::from(&%s::from_bytes(raw, %d)) == raw[%d..]" % (ty, o, o)) for o in offs
     ] + [dict(name=n, props=["C17"], kind="complete", clause=c) for n, c in names]
     return "".join(out), hs
